@@ -36,15 +36,28 @@ CFG = {
                    "measure query path de-duplicates); (4) from the disk journal: every part directory is removed at most once, never while it is a member of the table's current snapshot, and never between the "
                    "moment a full-range query pinned a snapshot containing it (attributed through the snapshot's reference count before/after the query passed currentSnapshot) and the moment the driver lets that "
                    "query into the matching snapshot release; (5) after all queries returned and maintenance came to rest: the final full-range answer equals the acknowledged rows, the part directories on disk are "
-                   "exactly the parts of the final snapshots, and every snapshot / part reference count is back at 1"),
+                   "exactly the parts of the final snapshots, and every snapshot / part reference count is back at 1. "
+                   "Scenario sidx-concurrent (weight 1 of 6): the ordered secondary index (banyand/internal/sidx) on its own, driven through the public step API the trace introducer uses: one maintenance actor at a "
+                   "time publishes memory parts (batches of 1-40 entries with unique payloads, 1-3 series, key range 4/40/100000), flushes of tape-chosen memory parts, merges of ARBITRARY subsets (>= 2) of the file "
+                   "parts and part synchronisations (removal of tape-chosen file parts), 3 in 4 as ConvertToMemPart/Flush/Merge -> snapshot.NewTransition(sidx, sidx.Prepare*) -> Commit -> Release with a hand-written gate "
+                   "between the steps (output built / prepared = inputs already marked removable by Snapshot.remove() / committed), 1 in 4 through the one-shot Introduce* calls; 1-3 query actors (QuerySync or "
+                   "StreamingQuery, series subset, 1 in 3 a key sub-range, asc/desc, complete answers) park at gaterw gates in front of the snapshot pin, between the pin and the part selection (gate after the "
+                   "currentSnapshot() call), between the part selection and the first block read, and in front of the snapshot release; per-run knobs also park the maintenance actor at the index's own gates (after "
+                   "reading the current snapshot, per kept part inside Snapshot.remove(), after remove(), in front of replaceSnapshot / ReplaceSnapshot, in front of snapshot releases) and the goroutines that remove "
+                   "part directories; the tape picks who continues at every quiescent point. Oracle per returned query against a reference list of written entries: nothing never written or outside the request, no "
+                   "entry twice, every entry acknowledged (written and introduced) before the invocation and not removed by a synchronisation begun before the return is there, the answer equals ONE content state "
+                   "(entry set after a write or sync publication) published between invocation and return, and the parts it came from (QueryResponse.PartIDs) never include a merged part together with one of its "
+                   "(transitive) inputs; no error, no panic (recovered ones via panicdiag). End state: both interfaces return exactly the final content state, the current snapshot holds exactly the parts of the "
+                   "driver's part model (memory / file) with all reference counts at 1 and nothing marked removable, and the part directories on disk are exactly its file parts"),
     "level_note": ("gates outside critical sections (mode A): interleavings inside tsTable's mutex are not explored; bluge (series index) and pkg/fs run atomically between gates. To keep runs a function of the tape the driver never "
                    "lets an engine loop find two ready select cases (Go picks at random): nobody is released into a send to an introducer, or past the wait for 'applied', while an introducer is parked in the middle of a "
                    "publication, and a merger is not released into re-registering with its flusher while that flusher is parked in mid-cycle; the scripted history, the step-limit drain and the race itself all run under "
                    "these rules, so schedules in which two senders pile up at one introducer are not explored. The package-level merge semaphore (made at init outside the bubble, sized by the CPU count) is re-created "
                    "inside the bubble with 8/1/2 slots. Pin tracking (oracle 4) covers full-range queries only; sub-range queries are judged by oracles 1-3. 'Stop the node while a query is parked' is NOT part of the check "
                    "(exploration aid C05_STOP=1): simnode.Stop closes the engines without draining in-flight requests, which a real node's gRPC server does first; under it a released stream query was seen to return "
-                   "'segment closed', a recovered panic ('invalid query message'), or a successful answer lacking the rows of a segment closed underneath it, depending on the Go scheduler. Trace ordered queries "
-                   "(sidx entry without visible spans) are not covered by this check"),
+                   "'segment closed', a recovered panic ('invalid query message'), or a successful answer lacking the rows of a segment closed underneath it, depending on the Go scheduler. The ordered index itself is covered by scenario sidx-concurrent (single maintenance actor, as the trace introducer serialises all transitions of a table; its "
+                   "queries dedup by payload, so 'merged part and inputs both visible' is judged from the part ids of the answer, not from duplicates; interleavings inside sidx.mu and inside the block readers are not "
+                   "explored). The cross-structure clause of trace ordered queries (an index entry whose spans are not visible in the core snapshot pinned by the same query) is not covered by this check"),
     "budget": {"quick": 60, "thorough": 1200},
     "det_n": {"quick": 64, "thorough": 128},
     "rule": ("each seed draws engine (measure 3 : stream 2), schema, shards (1 in 2 of 3 runs, else 1-2), query path (row / vectorized with batch size 1024/1/7/64), flush timeout 1/2/5 s, merge fan-in 2/2/3/4, eager merging "
@@ -53,24 +66,40 @@ CFG = {
              "which the tape chooses among: release one parked actor (run-until-yield bursts of 0/2/5 gates for engine actors), start a query (favoured while a flush or merge output is written but not yet "
              "introduced; at most 3 in flight; hold budget 0/4/10/25 steps during which maintenance and clock advances are favoured over the held query), start a writer (at most 2 in flight), advance the clock "
              "by one flush period / two periods + 1 s / 300 ms (1-6 times); after the step limit the actors in flight finish gate by gate in canonical order. Non-trivial = at least one query was in flight while a "
-             "flush or merge was introduced; distinct = canonical event-log digests"),
+             "flush or merge was introduced; distinct = canonical event-log digests. Scenario sidx-concurrent (1 seed in 6): draws key range 4/40/100000, 1-3 series, five arming knobs (maintenance parks at the "
+             "index's own gates 1/2, queries park before their first block read 3/4, before their snapshot release 1/2, part removals park 1/2, maintenance parks per kept part inside Snapshot.remove() 1/3), at most "
+             "1-3 queries in flight; a scripted history of 0-3 writes with optional flush (gates open); then up to 60/100/160 race steps in which the tape chooses among: release one parked actor (a query with a "
+             "hold budget 0/3/8/20 is disfavoured and maintenance favoured while it lasts), start a query (2-8 per run, favoured while a maintenance output is built or prepared but not yet published), start the "
+             "next of 3-12 maintenance operations (write 5 : flush 3 : merge 5 : sync 1, falling back when no suitable parts exist; two-phase 3 : one-shot 1); after the step limit everybody finishes gate by gate "
+             "in canonical order. Non-trivial = a query was in flight while a publication was committed"),
     "expected_probes": ["reach.query_pin_attributed", "reach.query_overlapped_flush", "reach.query_overlapped_merge", "reach.merge_happened", "reach.part_directory_removed",
                         "reach.merge_output_written_before_query", "reach.flush_output_written_before_query", "reach.query_pinned_while_merge_in_progress", "reach.query_pinned_while_flush_in_progress",
                         "reach.query_pinned_while_introducer_mid_publication", "reach.query_pinned_while_writer_between_introductions", "reach.query_parked_between_pin_and_first_read",
                         "reach.query_holds_snapshot_whose_parts_were_replaced", "reach.gc_removed_part_while_query_in_flight", "reach.pinned_part_removed_after_last_reader",
-                        "reach.batch_spans_two_segments", "reach.query_saw_unacknowledged_batch"],
+                        "reach.batch_spans_two_segments", "reach.query_saw_unacknowledged_batch",
+                        # scenario sidx-concurrent
+                        "reach.sidx_query_judged", "reach.sidx_query_invoked_between_publication_steps", "reach.sidx_query_invoked_between_prepare_and_commit", "reach.sidx_query_pinned_between_prepare_and_commit",
+                        "reach.sidx_query_parked_between_pin_and_part_selection", "reach.sidx_query_selects_parts_of_old_snapshot_after_inputs_marked_removable",
+                        "reach.sidx_query_parked_between_part_selection_and_first_read", "reach.sidx_query_returned_from_a_replaced_snapshot", "reach.sidx_query_overlapped_write_publication",
+                        "reach.sidx_query_overlapped_flush_publication", "reach.sidx_query_overlapped_merge_publication", "reach.sidx_query_overlapped_sync_publication",
+                        "reach.sidx_maintenance_parked_between_prepare_and_commit", "reach.sidx_maintenance_parked_inside_snapshot_remove", "reach.sidx_part_directory_removed_while_query_in_flight",
+                        "reach.sidx_merge_published", "reach.sidx_flush_published", "reach.sidx_sync_published", "reach.sidx_two_phase_publication", "reach.sidx_one_shot_publication"],
     "real_vs_stub": {
         "real": ["measure/stream write path (liaison front-end, write callback, mustAddMemPart), introducer / flusher / merger loops, snapshot and partWrapper reference counting, part removal, gc of manifests",
                  "query path: liaison Query RPC body, query processor, measure Query/Pull/PullBatch/Release, stream tsResult / vectorized scan, block scanner, series index lookup (bluge)",
-                 "storage segments and shards (SelectSegments, DecRef, rotation tick)"],
+                 "storage segments and shards (SelectSegments, DecRef, rotation tick)",
+                 "scenario sidx-concurrent: banyand/internal/sidx (ConvertToMemPart, Flush, Merge of arbitrary subsets, PrepareMemPart/Flushed/Merged/Synced, CurrentSnapshot/ReplaceSnapshot, one-shot Introduce*, "
+                 "QuerySync, StreamingQuery with its scanner and block workers, Snapshot / partWrapper reference counting, part removal) and banyand/internal/snapshot (NewTransition, Commit, Release) on real files"],
         "stub": ["syscalls below pkg/fs: real files on tmpfs + journal (simos)", "metadata registry (simmeta)", "gRPC transport (front-end methods are called directly)", "clock (testing/synctest)",
-                 "scheduling at gate granularity: the driver, not the Go scheduler, picks which parked goroutine continues"],
+                 "scheduling at gate granularity: the driver, not the Go scheduler, picks which parked goroutine continues",
+                 "scenario sidx-concurrent: the caller of the index (trace tsTable introducer / flusher / merger / syncer loops) is replaced by the driver's maintenance actor issuing the same calls; memory protector with a bypass registry"],
     },
     "assumptions": STD_ASSUME + [
         "'acknowledged' = the client's write stream returned with STATUS_SUCCEED for every request; a batch whose write was invoked but not acknowledged when a query returned may be visible (whole) or not",
         "order between two batches of one table is demanded only when the first was acknowledged before the second was invoked",
         "with 2 shards the shard of a series is not observable from outside: the atomic unit is (batch, day segment, series), a sound refinement of (batch, table)",
         "time ranges are end-inclusive (as in every planner of this tree)",
+        "sidx-concurrent: 'acknowledged' = the publication call (Transition.Commit / Introduce*) of the entry's memory part has returned; an entry whose publication has begun but not returned when a query was invoked or returned may be visible or not, but always together with its whole batch; part synchronisation removes the entries of the synced parts from the index (they live on another node from then on)",
         "a query is 'still reading' a pinned snapshot until the driver releases it into the snapshot's decRef; snapshots are released in the order they were pinned (true for full-range queries in both engines)",
     ],
 }
